@@ -2,7 +2,7 @@
    Only statements here; every proof is `exact <lemma>` into Proofs/.  All theorems hold for an arbitrary
    user-code oracle `body` (called with ORIGINAL parameter names) and output picker `pick`. *)
 From Verif Require Import Base.Prelude Base.StrOrd Base.StrUtil Base.Graph Model.Pipe Model.Rewrite Model.Alias
-  Proofs.GraphFacts Proofs.RewriteFacts Proofs.AliasFacts Proofs.NestFacts Proofs.SplitFacts Proofs.C10Witness.
+  Proofs.GraphFacts Proofs.RewriteFacts Proofs.AliasFacts Proofs.NestFacts Proofs.SplitFacts Proofs.MultiNestFacts Proofs.SimplifyFacts Proofs.C10Witness.
 
 (* ---------- renaming ---------- *)
 (* rename_preserves: for a renaming that is one-to-one on the names involved, the renamed pipeline evaluates the
@@ -261,12 +261,56 @@ Proof.
 Qed.
 
 (* ---------- simplified_pipeline ---------- *)
-(* NOT proved: simplify_preserves (every output retained by simplified_pipeline evaluates as in p).  The rewrite
-   is modelled (Model/Rewrite.simplify) and checked by correspondence only; it builds all NestedPipeFuncs at once
-   from the original functions, which the one-group theorem above does not cover.
-   What the model DOES show: "every request with combinable nodes is accepted" is false of the code - a function
-   combinable with two heads lands in two groups and the construction of the result is refused (known finding
-   simplify-shared-dependency) *)
+(* simplify_preserves, in two halves like nest_preserves (values up to fuel), for every request the code ACCEPTS
+   (`simplify o c p = Ok p'`; the requests of the known finding simplify-shared-dependency are refused, so nothing is
+   claimed about them).  No disjointness of the groups is needed: the output names chosen by _output_name keep every
+   output of a group that a function outside the group takes (shape_hid_rest / shape_hid_grp), and Pipeline
+   construction guarantees unique outputs of the result (add_all_unique).
+   Hypotheses: p has unique non-empty outputs, consistent defaults declared for parameters; the keywords do not name an
+   output of a combined function; for completeness the arguments of the new nested functions have values in p'. *)
+Theorem C10_simplify_sound : forall body pick o c p p' kw,
+  simplify o c p = Ok p' ->
+  (forall n1 n2 x, In n1 p -> In n2 p -> In x (outs (nf n1)) -> In x (outs (nf n2)) -> n1 = n2) ->
+  (forall n, In n p -> outs (nf n) <> []) ->
+  (forall n k, In n p -> In k (akeys (dflt (nf n))) -> In k (pnames (nf n))) ->
+  consistent_defaults (funcs p) = true ->
+  (forall plan, simplify_plan o c p = Ok plan ->
+     forall k nd, In k (akeys kw) -> In nd p -> In (nid nd) (flat_map fst (snd plan)) -> ~ In k (outs (nf nd))) ->
+  forall n o' v, neval body pick n p' kw o' = Ok v -> exists m, neval body pick m p kw o' = Ok v.
+Proof. exact simplify_sound. Qed.
+Print Assumptions C10_simplify_sound.
+
+Theorem C10_simplify_complete : forall body pick o c p p' kw,
+  simplify o c p = Ok p' ->
+  (forall n1 n2 x, In n1 p -> In n2 p -> In x (outs (nf n1)) -> In x (outs (nf n2)) -> n1 = n2) ->
+  (forall n, In n p -> outs (nf n) <> []) ->
+  (forall n k, In n p -> In k (akeys (dflt (nf n))) -> In k (pnames (nf n))) ->
+  consistent_defaults (funcs p) = true ->
+  (forall plan, simplify_plan o c p = Ok plan ->
+     forall k nd, In k (akeys kw) -> In nd p -> In (nid nd) (flat_map fst (snd plan)) -> ~ In k (outs (nf nd))) ->
+  (forall plan, simplify_plan o c p = Ok plan -> forall nd, In nd (skipn (length (fst plan)) p') ->
+     exists M args, args_with (neval body pick M p' kw) (funcs p') kw (nf nd) = Ok args) ->
+  forall n o' v, neval body pick n p kw o' = Ok v -> In o' (all_outputs (funcs p')) ->
+                 exists m, neval body pick m p' kw o' = Ok v.
+Proof. exact simplify_complete. Qed.
+Print Assumptions C10_simplify_complete.
+
+(* non-vacuity: f(x)->a, g(a)->b (same root arguments), h(b,y)->c ; simplified_pipeline('c') fuses f and g *)
+Example C10_example_simplify :
+  let p := lift [mkf (s "f") [s "a"] [(s "x", s "x")] [] [] false;
+                 mkf (s "g") [s "b"] [(s "a", s "a")] [] [] false;
+                 mkf (s "h") [s "c"] [(s "b", s "b"); (s "y", s "y")] [] [] false] in
+  exists p', simplify (s "c") false p = Ok p' /\ map (fun nd => outs (nf nd)) p' = [[s "c"]; [s "b"]]
+    /\ consistent_defaults (funcs p) = true
+    /\ neval Sym.body Sym.pick 5 p' [(s "x", s "X"); (s "y", s "Y")] (s "c") = Ok (s "h(b=g(a=f(x=X)),y=Y)")
+    /\ neval Sym.body Sym.pick 5 p [(s "x", s "X"); (s "y", s "Y")] (s "c") = Ok (s "h(b=g(a=f(x=X)),y=Y)").
+Proof.
+  cbv zeta. eexists. split; [vm_compute; reflexivity|]. split; [vm_compute; reflexivity|].
+  split; [vm_compute; reflexivity|]. split; vm_compute; reflexivity.
+Qed.
+
+(* "every request with combinable nodes is accepted" is false of the code - a function combinable with two heads lands
+   in two groups and the construction of the result is refused (known finding simplify-shared-dependency) *)
 Theorem C10_simplify_accepts_refuted :
   exists c, Run_C10.spec_ok c (Run_C10.run c) = false.
 Proof. exact simplify_refuted. Qed.
